@@ -81,6 +81,14 @@ theorem ExprTie_selectProject (isWord : Char → Bool) (lower : List Char → Li
     (∀ i, keptByGen ⟨"select_by_keyword", "isNotNone", "skip"⟩ (some []) i = false) :=
   ⟨selectProjectGen_eq isWord lower kexpr mexpr tasks, fun _ => by simp [keptByGen], fun _ => by simp [keptByGen]⟩
 
+/-- **When the selection is applied.** `select_tasks_by_marks_and_expressions` is a step of `create_dag_from_session` (the
+last one of the extracted pipeline), and `provisional_utils.recreate_dag` builds the new DAG with that function: the
+`-k` / `-m` formulas are therefore applied again whenever the DAG is re-created, i.e. also to the tasks a task generator
+creates during the build. (A selection done once per session, e.g. in `create_dag` only, flips `selectionSite`.) -/
+theorem ExprTie_selection_on_every_dag :
+    selectionSite.inCreateDagFromSession = true ∧ selectionSite.recreateUsesIt = true ∧ "select" ∈ Generated.dagPipeline := by
+  decide
+
 /-- One iteration of `_modify_dag`'s loop for a task with `after="<expr>"` — evaluate `select_by_after_keyword` on this
 task's own string, discard the task itself, draw edges from the selected tasks' successors — is `afterPredsOf`; the
 translator has established that an iteration reads nothing written by an earlier one (`afterLoop.stateless`; a memo
